@@ -142,6 +142,7 @@ class C06(Property):
     def explore(self, ctx: Ctx) -> None:
         seed = ctx.rng.randrange(1 << 30)
         self._lines, self._expect = [], []
+        self._network_hung = False
 
         async def main():
             context = make_context(ctx.scratch)
@@ -398,12 +399,21 @@ class C06(Property):
                 await tok.save(context.database, ext_in[name].persistent_id)
                 ext_in[name].put(tok)
             ext_in[name].put(TerminationToken())
-        try:
-            await asyncio.wait_for(StreamFlowExecutor(wf).run(), 60)
-        except asyncio.TimeoutError:
-            live = [st.name for st in wf.steps.values() if not st.terminated]
-            ctx.fail("network:hang", f"the loop network did not terminate; steps still running: {live}", case)
+        if getattr(self, "_network_hung", False):
+            return          # one hang is a result; do not spend the watchdog bound on every further network case
+        run = asyncio.create_task(StreamFlowExecutor(wf).run())
+        _, pending = await asyncio.wait([run], timeout=30)
+        if pending:
+            live = sorted(st.name for st in wf.steps.values() if not st.terminated)
+            self._network_hung = True
+            run.cancel()
+            try:
+                await run
+            except BaseException:  # noqa: BLE001
+                pass
+            ctx.fail("network:hang", f"the loop network did not terminate within 30 s; steps still running: {live}", case)
             return
+        run.result()
         out = list(out_step.get_output_port("val").token_list)
         # the property, end to end
         if not out or not isinstance(out[-1], TerminationToken):
@@ -547,6 +557,7 @@ class C06(Property):
         if not isinstance(case, dict) or "op" not in case:
             return super().replay(ctx, data)
         self._lines, self._expect, self._n = [], [], 0
+        self._network_hung = False
 
         async def main():
             context = make_context(ctx.scratch)
